@@ -45,6 +45,17 @@ TOL = 1e-9
 
 # =================================================================== (a) correspondence
 
+def rand_select(rng, ctx, kind):
+    """a dyadic post-selection value; a quarter of the time exactly zero in one of the forms a user may write"""
+    if rng.random() < 0.25:
+        form = rng.choice(["int", "float", "negfloat"] if kind == "homodyne" else ["int", "float", "complex", "negcomplex"])
+        ctx.tally(f"corr:select-zero:{kind}:{form}")
+        return {"int": 0, "float": 0.0, "negfloat": -0.0, "complex": 0j, "negcomplex": complex(-0.0, 0.0)}[form]
+    if kind == "homodyne":
+        return m6.dy(rng, -8, 8, 4)
+    return complex(m6.dy(rng, -6, 6, 8), m6.dy(rng, -6, 6, 8))
+
+
 class Batch:
     def __init__(self, ctx):
         self.ctx, self.reqs, self.pend = ctx, [], []
@@ -203,7 +214,7 @@ def corr_gauss(ctx, B, sf):
             return be
 
         if kind == "het":
-            al = complex(m6.dy(rng, -6, 6, 8), m6.dy(rng, -6, 6, 8))
+            al = rand_select(rng, ctx, 'heterodyne')
             g = make()
             ret = g.post_select_heterodyne(k, al)
             case.update(alpha=[al.real, al.imag])
@@ -211,7 +222,7 @@ def corr_gauss(ctx, B, sf):
                   "Measure.gaussPostSelect vs GaussianModes.post_select_heterodyne", case,
                   lambda r, g=g, ret=ret, al=al, tol=tol: _gs_check(r, g, tol) or (None if ret == al else ("alpha", ret)))
         elif kind == "hom":
-            val, off = m6.dy(rng, -8, 8, 4), m6.dy(rng, -4, 4, 4)
+            val, off = rand_select(rng, ctx, 'homodyne'), m6.dy(rng, -4, 4, 4)
             g = make()
             with m6.ScriptRNG(normal_offset=off) as sr:
                 ret = g.post_select_homodyne(k, val, float(EPS))
@@ -274,7 +285,7 @@ def corr_gauss(ctx, B, sf):
             case.update(phi=phi, c=m6.rat(c), s=m6.rat(s), hbar=hbar)
             be = backend()
             if kind in ("b_hom_sel", "front_hom_sel"):
-                sel, off = m6.dy(rng, -8, 8, 4), m6.dy(rng, -4, 4, 4)
+                sel, off = rand_select(rng, ctx, 'homodyne'), m6.dy(rng, -4, 4, 4)
                 with m6.ScriptRNG(normal_offset=off), m6.hbar_set(sf, hbar):
                     if front:
                         ret = sfops.MeasureHomodyne(phi, select=sel)._apply([k], be, shots=1)
@@ -304,7 +315,7 @@ def corr_gauss(ctx, B, sf):
                           None if np.asarray(ret).shape == (1, 1) and abs(np.asarray(ret)[0, 0] - m6.unrat(r["homReturned"])) < 1e-9
                           else (m6.unrat(r["homReturned"]), np.asarray(ret).tolist())))
             elif kind == "b_het_sel":
-                al = complex(m6.dy(rng, -6, 6, 8), m6.dy(rng, -6, 6, 8))
+                al = rand_select(rng, ctx, 'heterodyne')
                 ret = be.measure_heterodyne(k, select=al)
                 case.update(alpha=[al.real, al.imag])
                 B.add(dict(op="meas.gaussPost", modes=[k], het=m6.rvec([al.real, al.imag]), **base),
@@ -550,14 +561,14 @@ def _corr_bosonic_one(ctx, B, rng, kind, n, nc, covs, means, w0, modes, case, ma
                       "Measure.bosonicDyneComp vs BosonicModes.post_select_generaldyne (2 modes)", case,
                       lambda r, b=b: chk_state(r, b))
         elif kind == "het_c":
-            al = complex(m6.dy(rng, -6, 6, 8), m6.dy(rng, -6, 6, 8))
+            al = rand_select(rng, ctx, 'heterodyne')
             b = make()
             case.update(alpha=[al.real, al.imag])
             try_("Measure.bosonicDyneComp vs BosonicModes.post_select_heterodyne", case, lambda: b.post_select_heterodyne(modes[0], al))
             B.add(dict(op="meas.bosonicPost", hetCircuit=m6.rvec([al.real, al.imag]), **base),
                   "Measure.bosonicDyneComp vs BosonicModes.post_select_heterodyne", case, lambda r, b=b: chk_state(r, b))
         elif kind == "hom_c":
-            val = m6.dy(rng, -8, 8, 4)
+            val = rand_select(rng, ctx, 'homodyne')
             b = make()
             case.update(val=val)
             try_("Measure.bosonicDyneComp vs BosonicModes.post_select_homodyne", case, lambda: b.post_select_homodyne(modes[0], val, float(EPS)))
@@ -568,7 +579,7 @@ def _corr_bosonic_one(ctx, B, rng, kind, n, nc, covs, means, w0, modes, case, ma
             be.begin_circuit(n)
             be.circuit.weights, be.circuit.means, be.circuit.covs = w0.astype(complex), means.astype(complex), covs.astype(complex)
             if kind == "b_het_sel":
-                al = complex(m6.dy(rng, -6, 6, 8), m6.dy(rng, -6, 6, 8))
+                al = rand_select(rng, ctx, 'heterodyne')
                 case.update(alpha=[al.real, al.imag])
                 ret = try_("Measure vs BosonicBackend.measure_heterodyne(select)", case, lambda: be.measure_heterodyne(modes[0], select=al))
                 B.add(dict(op="meas.bosonicPost", hetBackend=m6.rvec([al.real, al.imag]), **base),
@@ -576,7 +587,7 @@ def _corr_bosonic_one(ctx, B, rng, kind, n, nc, covs, means, w0, modes, case, ma
                       lambda r, be=be, ret=ret, al=al: chk_state(r, be.circuit) or (
                           None if np.asarray(ret).shape == (1, 1) and np.asarray(ret)[0, 0] == al else ("alpha", np.asarray(ret).tolist())))
             else:
-                sel = m6.dy(rng, -8, 8, 4)
+                sel = rand_select(rng, ctx, 'homodyne')
                 case.update(select=sel)
                 ret = try_("Measure vs BosonicBackend.measure_homodyne(select)", case, lambda: be.measure_homodyne(0.0, modes[0], select=sel))
                 B.add(dict(op="meas.bosonicPost", eps=m6.rat(EPS), homSelect=m6.rvec([1, 1, sel]), scale=m6.rvec([1, 1]), **base),
@@ -1083,6 +1094,40 @@ def _meas_op(kind, mode, phi=None, select=None):
     return dict(cls="MeasureHeterodyne", regs=[mode], pars=[], select=select)
 
 
+ZERO_FORMS = dict(homodyne=["int", "float", "negfloat"], heterodyne=["int", "float", "complex", "negcomplex"])
+
+
+def zero_value(form):
+    """post-selection on exactly zero, in every form a user may write it (all are falsy in Python, all are valid outcomes)"""
+    return {"int": 0, "float": 0.0, "negfloat": -0.0, "complex": 0j, "negcomplex": complex(-0.0, 0.0)}[form]
+
+
+def make_zero(rng, case):
+    """turn a generated post-selection case into one that heralds on the value 0"""
+    case["zero"] = rng.choice(ZERO_FORMS[case["kind"]])
+    case["outcome"] = 0.0 if case["kind"] == "homodyne" else [0.0, 0.0]
+    return case
+
+
+def check_postselected_protocol(ctx, rp, backend, kind, sel, res, eng, mode, script, what):
+    """what the property demands of ANY post-selected measurement besides the conditional state: the reported sample and the
+    RegRef value are the selected value itself, and the random generator is not consulted (the only documented draw is the
+    unobserved conjugate quadrature in the Gaussian finite-squeezing homodyne)"""
+    samples = np.asarray(res.samples)
+    if samples.shape != (1, 1) or not (samples[0, 0] == sel or abs(samples[0, 0] - sel) <= 1e-12 * max(1.0, abs(sel))):
+        ctx.fail(f"dyne-select-returned:{kind}:{backend}", f"{backend}: {what}: post-selected value {sel!r} reported as {samples.tolist()}", rp)
+    val = eng.run_progs[-1].reg_refs[mode].val
+    v = None if val is None else np.asarray(val).ravel()
+    if v is None or v.shape != (1,) or not (v[0] == sel or abs(v[0] - sel) <= 1e-12 * max(1.0, abs(sel))):
+        ctx.fail(f"select-regref:{kind}:{backend}", f"{backend}: {what}: RegRef q[{mode}].val = {val!r} after post-selecting {sel!r}", rp)
+    if script is not None:
+        allowed = {"normal"} if (backend == "gaussian" and kind == "homodyne") else set()
+        draws = [c["fn"] for c in script.log if c["fn"] not in allowed]
+        if draws or len(script.calls("normal")) > 1:
+            ctx.fail(f"select-consults-rng:{kind}:{backend}", f"{backend}: {what}: a post-selected measurement drew from the random generator "
+                     f"({[c['fn'] for c in script.log]}): the outcome is not the one that was selected", rp)
+
+
 def oracle_dyne_case(ctx, sf, case):
     """post-select a homodyne / heterodyne outcome on every back end; compare the full post-measurement state
     (unmeasured modes conditional, measured mode vacuum) with the independent reference"""
@@ -1092,15 +1137,17 @@ def oracle_dyne_case(ctx, sf, case):
     sc = math.sqrt(hbar / 2)
     if kind == "homodyne":
         out2 = case["outcome"]                               # hbar = 2 units
-        sel = out2 * sc
+        sel = out2 * sc if not case.get("zero") else zero_value(case["zero"])
         refc = m6.ref_condition(ref, m, "homodyne", out2, case["phi"])
         op = _meas_op("homodyne", m, case["phi"], sel)
     else:
         al = complex(*case["outcome"])
-        sel = al
+        sel = al if not case.get("zero") else zero_value(case["zero"])
         refc = m6.ref_condition(ref, m, "heterodyne", al)
-        op = _meas_op("heterodyne", m, select=al)
+        op = _meas_op("heterodyne", m, select=sel)
     spec = dict(n=n, ops=case["prefix"] + [op])
+    if case.get("zero"):
+        ctx.tally(f"select-zero:{kind}:{backend}:{case['zero']}")
     want = refc.alpha_N_M()
     if hasattr(ref, "active") and ref.active != list(range(ref.n)):
         want = sim.restrict_moments(want, ref.active)      # register with holes: the state lists the live modes, ascending
@@ -1114,7 +1161,7 @@ def oracle_dyne_case(ctx, sf, case):
         bad = d > tol
     else:
         D = case.get("cutoff", 10)
-        res, eng, got = _run(sf, spec, backend, hbar, cutoff=D)
+        res, eng, got = _run(sf, spec, backend, hbar, cutoff=D, script=script)
         d = sim.moment_dist(got, want)
         bad = False
         if d > 2e-4:
@@ -1128,8 +1175,8 @@ def oracle_dyne_case(ctx, sf, case):
         ctx.fail(f"dyne-conditional:{kind}:{backend}",
                  f"{backend}: state after Measure{kind.capitalize()}(select={sel}) on mode {m} of {n} (phi={case.get('phi')}, "
                  f"hbar={hbar}) differs from the conditional state by {d:.3g} in (alpha, N, M)", rp)
-    if samples.shape != (1, 1) or abs(samples[0, 0] - sel) > 1e-9:
-        ctx.fail(f"dyne-select-returned:{kind}:{backend}", f"{backend}: post-selected value {sel} reported as {samples.tolist()}", rp)
+    check_postselected_protocol(ctx, rp, backend, kind, sel, res, eng, m, script,
+                                f"Measure{kind.capitalize()}(select={sel!r}) on mode {m} of {n} (phi={case.get('phi')}, hbar={hbar})")
 
 
 def gen_dyne_case(rng, backend, kind):
@@ -1298,8 +1345,17 @@ def oracle_fock_case(ctx, sf, case):
         spec = dict(n=case["n"], ops=case["prefix"] + [dict(cls="MeasureFock", regs=true_regs, pars=[], select=sel)])
         if p < 1e-9:
             return
-        res, rho1, _ = _fock_state_of(sf, spec, D, pure)
+        script0 = m6.ScriptRNG()
+        res, rho1, eng0 = _fock_state_of(sf, spec, D, pure, script=script0)
         outcome = dict(zip(regs, sel))
+        if script0.log:
+            ctx.fail("select-consults-rng:fock:fock", f"MeasureFock(select={sel}) | {true_regs} drew from the random generator "
+                     f"({[c['fn'] for c in script0.log]})", rp)
+        vals = [eng0.run_progs[-1].reg_refs[m].val for m in true_regs]
+        if any(v is None for v in vals) or [int(np.real(np.asarray(v).ravel()[0])) for v in vals] != list(sel):
+            ctx.fail("select-regref:fock:fock", f"MeasureFock(select={sel}) | {true_regs}: RegRef values {vals}", rp)
+        if all(v == 0 for v in sel):
+            ctx.tally("select-zero:fock:fock")
     else:
         spec = dict(n=case["n"], ops=case["prefix"] + [dict(cls="MeasureFock", regs=true_regs, pars=[])])
         pick = case["pick"]
@@ -1366,6 +1422,11 @@ def gen_fock_case(rng, selected):
         regs = case["regs"]
     if selected:
         case["select"] = [rng.randint(0, 2) for _ in regs]
+        u = rng.random()
+        if u < 0.25:
+            case["select"] = [0 for _ in regs]                     # heralding on vacuum: [0], [0, 0], ...
+        elif u < 0.4:
+            case["select"][rng.randrange(len(regs))] = D - 1       # the highest photon number the cutoff can represent
     else:
         case["pick"] = rng.randrange(50)
     return case
@@ -1530,7 +1591,10 @@ def oracle_fock_layout(ctx, sf, rng, spec=None):
         for g in groups:
             op = dict(cls="MeasureFock", regs=g, pars=[])
             if dark:
-                op["kw"] = dict(dark_counts=[round(rng.uniform(0.1, 2.0), 2) for _ in g])
+                dc = [round(rng.uniform(0.1, 2.0), 2) if rng.random() < 0.7 else 0 for _ in g]
+                if rng.random() < 0.2:
+                    dc = [0 for _ in g]                            # zero rates are valid (and falsy)
+                op["kw"] = dict(dark_counts=dc if not (len(g) == 1 and rng.random() < 0.4) else dc[0])
             ops_.append(op)
         spec = dict(n=n, ops=ops_)
     n = spec["n"]
@@ -1547,7 +1611,8 @@ def oracle_fock_layout(ctx, sf, rng, spec=None):
         return
     exp = list(ks)
     calls = script.calls("poisson")
-    want_calls = [([float(x) for x in o["kw"]["dark_counts"]], (1, len(o["regs"]))) for o in cmds
+    as_list = lambda dc: [float(x) for x in (dc if isinstance(dc, (list, tuple)) else [dc])]
+    want_calls = [(as_list(o["kw"]["dark_counts"]), (1, len(o["regs"]))) for o in cmds
                   if o.get("kw", {}).get("dark_counts") is not None]
     for o in cmds:
         if o.get("kw", {}).get("dark_counts") is not None:
@@ -1658,6 +1723,10 @@ def gen_shared_case(rng, backend):
     a, b, c = rng.sample(range(n), 3)
     phi = round(rng.uniform(-1.5, 1.5), 3)
     o1, o2 = round(rng.uniform(-0.6, 0.6), 3), round(rng.uniform(-0.6, 0.6), 3)
+    if rng.random() < 0.4:
+        o1 = 0.0
+    elif rng.random() < 0.3:
+        o2 = 0.0
     # (a, phi, o1) and (c, phi, o1) share one object; (b, phi, o2) has the same angle but another select
     return dict(backend=backend, hbar=hbar, n=n, prefixes=prefixes, meas=[(a, phi, o1), (b, phi, o2), (c, phi, o1)])
 
@@ -1921,10 +1990,14 @@ def oracle(ctx, sf):
         backend = ["gaussian", "bosonic"][it % 2]
         kind = ["homodyne", "heterodyne"][(it // 2) % 2]
         case = gen_dyne_case(rng, backend, kind)
+        if it % 12 >= 8:                       # a third of the cases of every (back end, measurement) pair herald on exactly 0
+            make_zero(rng, case)
         ctx.count(f"oracle:dyne:{kind}:{backend}", case, True, sample=dict(n=case["n"], mode=case["mode"], kind=kind, backend=backend))
         run_oracle_case(ctx, sf, "dyne", case)
     for it in range(ctx.n(6, 60)):
         case = gen_dyne_case(rng, "fock", "homodyne")
+        if it % 3 == 2:
+            make_zero(rng, case)
         ctx.count("oracle:dyne:homodyne:fock", case, True)
         run_oracle_case(ctx, sf, "dyne", case)
     for it in range(ctx.n(24, 300)):
@@ -1953,6 +2026,8 @@ def oracle(ctx, sf):
         backend = ["gaussian", "bosonic", "fock"][it % 3] if it % 6 != 5 else "fock"
         backend = backend if backend != "fock" or it % 2 == 1 else "gaussian"
         case = gen_holes_case(rng, backend, ["homodyne", "heterodyne"][(it // 3) % 2] if backend != "fock" else "homodyne")
+        if it % 4 == 3:
+            make_zero(rng, case)
         ctx.count(f"oracle:holes:{case['kind']}:{backend}", case, True, sample=dict(n=case["n"], mode=case["mode"], backend=backend))
         run_oracle_case(ctx, sf, "dyne", case)
     for it in range(ctx.n(6, 60)):
